@@ -1,12 +1,12 @@
 // replay for property C02
 // refuted obligation (Kani harness): algorithm::kalman::verif::c02_p_slew_frequency_bounded  [/verif/kani/ntp_proto/algorithm/kalman/mod.rs]
-// failed checks: NaN on division @ ntp-proto/src/algorithm/kalman/mod.rs:336
+// failed checks: assertion failed: c.desired_freq.abs() <= slew_max @ /verif/kani/ntp_proto/algorithm/kalman/mod.rs:340
 // re-run natively against the real code:  /verif/check C02 --replay /verif/replays/C02-c02_p_slew_frequency_bounded.rs
 //meta {"property": "C02", "crate_dir": "ntp-proto", "harness": "algorithm::kalman::verif::c02_p_slew_frequency_bounded", "harness_file": "/verif/kani/ntp_proto/algorithm/kalman/mod.rs", "features": [], "transform": true, "c_ffi": false}
-// native replay: passed-natively
+// native replay: reproduced
 /// Test generated for harness `algorithm::kalman::verif::c02_p_slew_frequency_bounded` 
 ///
-/// Check for `cover`: "maximum slew reachable"
+/// Check for `assertion`: "assertion failed: c.desired_freq.abs() <= slew_max"
 ///
 /// # Warning
 ///
@@ -20,7 +20,7 @@
 /// logic.
 
 #[test]
-fn kani_concrete_playback_c02_p_slew_frequency_bounded_7327199677937447183() {
+fn kani_concrete_playback_c02_p_slew_frequency_bounded_3757720160861792211() {
     let concrete_vals: Vec<Vec<u8>> = vec![
         // 0ul
         vec![0, 0, 0, 0, 0, 0, 0, 0],
@@ -30,32 +30,34 @@ fn kani_concrete_playback_c02_p_slew_frequency_bounded_7327199677937447183() {
         vec![0],
         // 0
         vec![0],
+        // 1
+        vec![1],
+        // 4611686018427387904
+        vec![0, 0, 0, 0, 0, 0, 0, 64],
         // 0
         vec![0],
         // 0
         vec![0],
         // 0
         vec![0],
-        // 0
-        vec![0],
-        // 9222809209382440337
-        vec![145, 13, 113, 132, 28, 0, 254, 127],
-        // -1
-        vec![0, 0, 0, 0, 0, 0, 240, 191],
+        // 9223372036819407117
+        vec![13, 81, 228, 253, 255, 255, 255, 127],
+        // -1.340781e+154
+        vec![0, 0, 0, 0, 0, 0, 240, 223],
         // 0
         vec![0, 0, 0, 0, 0, 0, 0, 0],
         // 0
         vec![0],
-        // -0
-        vec![0, 0, 0, 0, 0, 0, 0, 128],
-        // 0.999512
-        vec![224, 7, 240, 255, 255, 251, 239, 63],
-        // 0.031243
-        vec![249, 38, 239, 184, 55, 254, 159, 63],
-        // 1.310435e+5
-        vec![249, 38, 239, 184, 55, 254, 255, 64],
-        // 1.310435e+5
-        vec![249, 38, 239, 184, 55, 254, 255, 64],
+        // 2.001953
+        vec![1, 0, 0, 0, 0, 4, 0, 64],
+        // 0.25
+        vec![255, 255, 255, 255, 255, 255, 207, 63],
+        // 0.001111
+        vec![179, 23, 198, 64, 77, 50, 82, 63],
+        // 0.131759
+        vec![83, 210, 255, 126, 119, 221, 192, 63],
+        // -0.008235
+        vec![83, 210, 255, 126, 119, 221, 128, 191],
         // 1
         vec![0, 0, 0, 0, 0, 0, 240, 63],
         // 0
@@ -79,8 +81,6 @@ fn kani_concrete_playback_c02_p_slew_frequency_bounded_7327199677937447183() {
 }
 
 /* native run output:
-/x86_64-unknown-linux-gnu/debug/build/tokio/08901c66e86e93cd/out -L dependency=/verif/build/playback-x/x86_64-unknown-linux-gnu/debug/build/tokio-rustls/54d8ca3c8a7af86e/out -L dependency=/verif/build/playback-x/x86_64-unknown-linux-gnu/debug/build/tracing/5bb07173bbfece25/out -L dependency=/verif/build/playback-x/x86_64-unknown-linux-gnu/debug/build/tracing-core/8462334772d35f33/out -L dependency=/verif/build/playback-x/x86_64-unknown-linux-gnu/debug/build/typenum/4ef28bbd38ede6dd/out -L dependency=/verif/build/playback-x/x86_64-unknown-linux-gnu/debug/build/untrusted/a010c55f4c939ac1/out -L dependency=/verif/build/playback-x/x86_64-unknown-linux-gnu/debug/build/zerocopy/efa2c208243efb84/out -L dependency=/verif/build/playback-x/x86_64-unknown-linux-gnu/debug/build/zeroize/4444842b71a295a1/out -L dependency=/verif/build/playback-x/x86_64-unknown-linux-gnu/debug/build/zmij/91739b33de1678fe/out -L dependency=/verif/build/playback-x/debug/build/ntp-proto/674f468bfdacaeac/out -C embed-bitcode=no --cfg 'feature="aws-lc"' --cfg 'feature="default"' --cfg 'feature="rustcrypto"' --check-cfg 'cfg(docsrs,test)' --check-cfg 'cfg(feature, values("__internal-api", "__internal-fuzz", "__internal-test", "arbitrary", "aws-lc", "default", "openssl", "openssl-vendored", "rustcrypto"))' --error-format human` (exit status: 1)
-note: test exited abnormally; to see the full output pass --no-capture to the harness.
-error: /root/.kani/kani-0.68.0/toolchain/bin/cargo exited with status exit status: 1
-
+panicked at /verif/kani/ntp_proto/algorithm/kalman/mod.rs:340:9:
+assertion failed: c.desired_freq.abs() <= slew_max
 */
